@@ -122,7 +122,7 @@ Fails(e) ==
   ELSE CASE e.e = "OBJ" /\ e.machine = "variant" -> VFold(e, InitSlots, 1)
          [] e.e = "OBJ" /\ e.machine \in {"optional", "optional_int", "entry"} -> OFold(e, InitSlots, 1)
          [] e.e = "OBJ" /\ e.machine = "result" -> RFold(e, InitSlots, 1)
-         [] e.e = "OBJ" /\ e.machine = "uhandle" -> HFold(e, HInit, 1)
+         [] e.e = "OBJ" /\ e.machine \in {"uhandle", "ufile"} -> HFold(e, HInit, 1)
          [] e.e = "CMP" -> CmpFails(e)
          [] e.e = "MSG" -> MsgFails(e)
          [] OTHER -> {}
